@@ -119,6 +119,14 @@ pub fn c15_specs(thorough: bool) -> Vec<Op> {
             }
         }
     }
+    // alloc_try_with_mut: closure returns Ok (Finalise) / Err (Drop) / panics (Unwind); cap 0 = the try_ twin
+    for &elem in elems {
+        for cap in [255u8, 0] {
+            for end in [MutEnd::Finalise, MutEnd::Drop, MutEnd::Unwind] {
+                v.push(Op::MutColl(MutSpec { kind: MutKind::TryWithMut, elem, cap, pushes: 1, extra: MutExtra::None, end }));
+            }
+        }
+    }
     for kind in [MutKind::FmtMut, MutKind::CstrFmtMut] {
         for &p in pushes {
             for cap in [255u8, 0] {
